@@ -437,7 +437,10 @@ EmitMut == (IF Commit THEN s.ph = "mutdone" ELSE s.ph = "mut") =>
 \* special values, as strings decoded by the harness (hpi = pi/2, sub = smallest subnormal)
 Values == <<"NaN", "inf", "-inf", "0", "-0", "sub", "-sub", "1e308", "-1e308", "1e-300",
             "hpi", "-hpi", "pi", "-pi", "2pi", "90", "-90", "180", "-180", "1", "-1",
-            "6378137", "-6356752.314", "1e10", "500000", "1e7", "2020">>
+            "6378137", "-6356752.314", "1e10", "500000", "1e7", "2020",
+            \* (added after the value corner hunt: the largest finite number, one ulp beyond the pole and the date line,
+            \* a latitude beyond the pole, the geocentre as a height, a far epoch)
+            "max", "-max", "hpi+", "-hpi-", "pi+", "91d", "-6400000", "1e15">>
 Benign == <<"0.2", "0.9", "100", "2020">>
 NV == Len(Values)
 InitCoord == s = [ph |-> "coord", t |-> Benign, n |-> 0, last |-> 0]
